@@ -140,13 +140,15 @@ def _job(job):
     lines = doc["lines"]
     # (a) parse_feature(text, language=lang)
     tl, dec, creators, texts = docrender.decorate(lines, lang, rnd, pick)
-    text = u"\n".join(tl) + rnd.choice([u"", u"\n", u"\n\n"])
+    eol = rnd.choice(render.EOLS)
+    text = eol.join(tl) + rnd.choice([u"", eol, eol + eol])
     emit("feature", "feature", text, dec, creators, texts, False)
     # (b) parse_file with a '# language:' header (every document in the sweep, every 2nd otherwise)
     if sweep is not None or k % 2 == 0:
         pre = docrender.header_lines(rnd)
         tl2, dec2, cr2, tx2 = docrender.decorate(pre + lines, lang, rnd, pick, header=True)
-        emit("file", "file", u"\n".join(tl2) + u"\n", dec2, cr2, tx2, True)
+        eol2 = rnd.choice(render.EOLS)
+        emit("file", "file", eol2.join(tl2) + eol2, dec2, cr2, tx2, True)
     # (c) fragments through the other entry points
     marks = doc["marks"]
     if sweep is None and tier == "quick" and len(marks) > 6:
@@ -163,8 +165,9 @@ def _job(job):
                 spaced.append(ln)
             frag = spaced
         tl3, dec3, cr3, tx3 = docrender.decorate(frag, lang, rnd, pick, tags_entry=(m["e"] == "tags"))
-        t3 = u"\n".join(tl3)
-        t3 += rnd.choice([u"", u"\n"])
+        eol3 = rnd.choice(render.EOLS)
+        t3 = eol3.join(tl3)
+        t3 += rnd.choice([u"", eol3])
         emit("fragment", m["e"], t3, dec3, cr3, tx3, False)
     # (d) ModelDescriptor round trip on what parse_feature returned
     if sweep is None:
@@ -258,7 +261,8 @@ def run(chk):
 
     all_langs = sorted(render.languages())
     if quick:
-        langs = list(QUICK_LANGS) + rnd.sample([l for l in all_langs if l not in QUICK_LANGS], 6)
+        base = list(QUICK_LANGS) + [l for l in render.prefix_languages() if l not in QUICK_LANGS]
+        langs = base + rnd.sample([l for l in all_langs if l not in base], 4)
     else:
         langs = list(QUICK_LANGS) + [l for l in all_langs if l not in QUICK_LANGS]
     scratch_root = tempfile.mkdtemp(prefix="verif-c04-")
